@@ -33,7 +33,9 @@ BUDGET = {"quick": 60, "thorough": 700}
 REPO = os.environ.get("VERIF_REPO", "/repo")
 RULE = (
     "case = well-formed text (generated document in a random layout / corpus file / "
-    "text an encoder produced for a generated module). Non-trivial = the text has "
+    "text an encoder produced for a generated module / a character-level mutant of "
+    "one of these or - thorough - a coverage-guided atheris input, kept when the "
+    "default loader accepts it without repair). Non-trivial = the text has "
     "a block or a duplicate name; distinct by text."
 )
 ASSUMPTIONS = [
@@ -86,11 +88,15 @@ def enc_outcome(fn):
         return ("raised", type(e).__name__, str(e)[:200])
 
 
-def run_text(text):
+def run_text(text, arbitrary=False):
+    """arbitrary=True: the text is not known to be well-formed (mutant / fuzzer input);
+    it only counts as well-formed when the default loader accepts it without repair."""
     r = both_loads(text)
     if r is None:
         return ("skip", "spins (C06)")
     old, new = r
+    if arbitrary and old[0] == "raised":
+        return ("skip", "not well-formed: the default loader rejects it")
     if old[0] == "ok" and list(old[1].errors):
         return ("skip", "not well-formed: the default loader repaired empty values")
     if old[0] == "raised" or new[0] == "raised":
@@ -155,7 +161,10 @@ def corpus():
 
 @st.composite
 def texts(draw):
-    src = draw(st.sampled_from(["gen", "gen", "enc", "enc"]))
+    src = draw(st.sampled_from(["gen", "gen", "enc", "enc", "mutant"]))
+    if src == "mutant":
+        from props import c07
+        return draw(c07.mutants()), src
     if src == "gen":
         d = draw(st.sampled_from(["default", "PVL", "ODL", "PDS3", "PDS3", "PDS3"]))
         doc = draw(gt.documents(d, min_statements=1))
@@ -181,7 +190,7 @@ STATS = {}
 
 def record(acc, text, src):
     STATS.clear()
-    r = run_text(text)
+    r = run_text(text, arbitrary=(src == "mutant"))
     for k, v in STATS.items():
         acc.event(k, v)
     acc.event(f"{src}:{r[0]}")
@@ -191,7 +200,8 @@ def record(acc, text, src):
     acc.case(key=text, nontrivial=nt,
              sample={"source": src, "text": text[:200]} if nt else None)
     if r[0] == "fail":
-        acc.fail(r[1], dict(text=text), r[2])
+        acc.fail(r[1], dict(text=text, arbitrary=True) if src == "mutant"
+                 else dict(text=text), r[2])
 
 
 def random_cases(acc, n, seed):
@@ -213,14 +223,40 @@ def corpus_cases(acc):
         record(acc, t, "corpus")
 
 
+def fuzz_one(data):
+    try:
+        text = data.decode("utf-8")
+    except UnicodeDecodeError:
+        text = data.decode("latin-1")
+    r = run_text(text, arbitrary=True)
+    if r[0] == "fail":
+        return ("fail", (r[1], dict(text=text, arbitrary=True), r[2]))
+    return (r[0], None)
+
+
+def fuzz_corpus():
+    from props import c07
+    return [t.encode("utf-8", "replace") for t in c07.POOL + [c[:380] for c in corpus()]]
+
+
+def atheris_shard(acc, seed, runs, use_corpus):
+    import sys
+    from vlib.fuzzrun import atheris_shard as run
+    run(acc, ID, seed, runs, use_corpus, max_len=400, prop=sys.modules[__name__])
+
+
 def shards(tier, seed):
     n = 350 if tier == "quick" else 5000
-    return [("random_cases", dict(n=n, seed=seed * 1000 + j)) for j in range(16)] + \
+    out = [("random_cases", dict(n=n, seed=seed * 1000 + j)) for j in range(16)] + \
         [("corpus_cases", {})]
+    if tier == "thorough":
+        out += [("atheris_shard", dict(seed=seed * 100 + j + 1, runs=100000,
+                                       use_corpus=bool(j % 2))) for j in range(8)]
+    return out
 
 
 def replay(case):
-    r = run_text(case["text"])
+    r = run_text(case["text"], arbitrary=bool(case.get("arbitrary")))
     if r[0] == "fail":
         return (r[1], r[2])
     return None
@@ -230,5 +266,6 @@ def shrink(case, still_fails):
     lines = case["text"].split("\n")
     if len(case["text"]) > 5000:
         return case
-    kept = shrink_seq(lines, lambda ls: still_fails(dict(text="\n".join(ls))))
-    return dict(text="\n".join(kept))
+    extra = {"arbitrary": True} if case.get("arbitrary") else {}
+    kept = shrink_seq(lines, lambda ls: still_fails(dict(text="\n".join(ls), **extra)))
+    return dict(text="\n".join(kept), **extra)
